@@ -1,3 +1,798 @@
-import NoteSeqVerif.Model.C18
+import Mathlib.Tactic.Set
+import NoteSeqVerif.Proofs.C18Float
+import NoteSeqVerif.Proofs.C18Enc
+import NoteSeqVerif.Proofs.C18EncB
+import NoteSeqVerif.Proofs.C18Snap
+import NoteSeqVerif.Proofs.C18Dec
+/-! C18 — property theorems (DESIGN 6.18).  Helper lemmas live in `Proofs/C18*.lean`
+(`enc_active_cell`, the generic active-roll formula, is in `Proofs/C18Enc.lean`; the float lemmas
+`timeToFrames_grid`, `numRows_grid` and the structure `Rounding` in `Proofs/C18Float.lean`).
+
+`R` = rounding after every float64 operation (`rne53` in the driver), `R32` = float32 store,
+`Rv` = arithmetic of the velocity array's dtype.  Theorems quantified over `R` hold for every
+function, those with `Rounding R` for every operator with the three IEEE properties, those with
+`id` are the exact-arithmetic reading. -/
 namespace NSV.C18
+
+/-! ## sequence_to_pianoroll -/
+
+/-- onset frames in window mode: `[f₀ - window, f₀ + window] ∩ [0, n)` around the delayed first frame -/
+theorem noteFrames_window (R : Rat → Rat) (eps : Rat) (c : Cfg) (total : Rat) (n : Nat) (nt : PNote)
+    (hm : c.mode = 0) :
+    ∃ nf, noteFrames R eps c total n nt = .ok nf ∧
+      ∀ f : Nat, f < n → (inSlice n nf.os nf.oe f = true ↔
+        (framesFromTimes R eps c.fps c.occ (R (nt.start + R (c.delayMs / 1000)))
+            (R (nt.end_ + R (c.delayMs / 1000)))).1 - c.window ≤ (f : Int) ∧
+        (f : Int) ≤ (framesFromTimes R eps c.fps c.occ (R (nt.start + R (c.delayMs / 1000)))
+            (R (nt.end_ + R (c.delayMs / 1000)))).1 + c.window) := by
+  unfold noteFrames
+  simp only [hm, ↓reduceIte]
+  refine ⟨_, rfl, ?_⟩
+  intro f hf
+  simp only
+  rw [inSlice_iff n _ _ f (by omega) (by omega) hf]
+  omega
+
+/-- onset frames in length mode: the frames of `[onset, min(end, onset + onset_length_ms))`, clipped at 0 -/
+theorem noteFrames_length (R : Rat → Rat) (eps : Rat) (c : Cfg) (total : Rat) (n : Nat) (nt : PNote)
+    (hm : c.mode = 1) :
+    ∃ nf, noteFrames R eps c total n nt = .ok nf ∧
+      (nf.os, nf.oe) =
+        (max 0 (framesFromTimes R eps c.fps c.occ (R (nt.start + R (c.delayMs / 1000)))
+          (rmin (R (nt.end_ + R (c.delayMs / 1000)))
+            (R (R (nt.start + R (c.delayMs / 1000)) + R (c.onsetLenMs / 1000))))).1,
+         max 0 (framesFromTimes R eps c.fps c.occ (R (nt.start + R (c.delayMs / 1000)))
+          (rmin (R (nt.end_ + R (c.delayMs / 1000)))
+            (R (R (nt.start + R (c.delayMs / 1000)) + R (c.onsetLenMs / 1000))))).2) := by
+  unfold noteFrames
+  simp [hm]
+
+/-- **onset roll** (any rounding, any parameters): a cell is 1 exactly when some in-range note's onset
+span contains it -/
+theorem enc_onset_cell {R R32 : Rat → Rat} {eps : Rat} {c : Cfg} {total : Rat} {notes : List PNote}
+    {ccs : List PCC} {pr : Pianoroll} (h : encode R R32 eps c total notes ccs = .ok pr) (f p : Nat)
+    (hf : f < (numRows R c.fps total).toNat) (hp : p < (c.maxPitch - c.minPitch + 1).toNat) :
+    getCell pr.onsets f p = some
+      (if ∃ nt ∈ notes, NoteCovers R eps c total (numRows R c.fps total).toNat (selOnset c) f p nt = true
+       then 1 else 0) := by
+  obtain ⟨_, _, st, hst, _, ho, _⟩ := encode_ok h
+  rw [ho, encNotes_cell R R32 eps c total _ _ (·.onsets) (selOnset c)
+    (step_onsets R R32 eps c total _) _ _ st hst 0 rfl f p hf hp]
+  rw [foldl_sel_const _ _ _ 1 0]
+  · congr 1
+    simp only [mem_sortByStart]
+  · intro a _ hc
+    unfold NoteCovers at hc
+    unfold noteVal
+    cases hop : noteOp R eps c total (numRows R c.fps total).toNat (selOnset c) a with
+    | none => rw [hop] at hc; cases hc
+    | some op =>
+      obtain ⟨_, nf, _, rfl⟩ := (noteOp_some_iff _ _ _ _ _ _ _ _).mp hop
+      rfl
+
+/-- **velocity roll** (any rounding, any parameters): a cell that no note paints holds 0; otherwise it
+holds `float32(velocity / max_velocity)` of the LAST note in start order that paints it -/
+theorem enc_velocity_cell {R R32 : Rat → Rat} {eps : Rat} {c : Cfg} {total : Rat} {notes : List PNote}
+    {ccs : List PCC} {pr : Pianoroll} (h : encode R R32 eps c total notes ccs = .ok pr) (f p : Nat)
+    (hf : f < (numRows R c.fps total).toNat) (hp : p < (c.maxPitch - c.minPitch + 1).toNat) :
+    ((∀ nt ∈ notes, NoteCovers R eps c total (numRows R c.fps total).toNat (selActive c) f p nt = false) ∧
+      getCell pr.activeVelocities f p = some 0) ∨
+    (∃ l1 nt l2, sortByStart notes = l1 ++ nt :: l2 ∧
+      NoteCovers R eps c total (numRows R c.fps total).toNat (selActive c) f p nt = true ∧
+      (∀ o ∈ l2, NoteCovers R eps c total (numRows R c.fps total).toNat (selActive c) f p o = false) ∧
+      getCell pr.activeVelocities f p =
+        some (R32 (R ((nt.velocity : Rat) / (c.maxVelocity : Rat))))) := by
+  obtain ⟨_, _, st, hst, _, _, hv, _⟩ := encode_ok h
+  rw [hv, encNotes_cell R R32 eps c total _ _ (·.vels) (selVel R R32 c)
+    (step_vels R R32 eps c total _) _ _ st hst 0 rfl f p hf hp]
+  by_cases hex : ∃ a ∈ sortByStart notes,
+      NoteCovers R eps c total (numRows R c.fps total).toNat (selVel R R32 c) f p a = true
+  · right
+    obtain ⟨l1, nt, l2, hl, hc, hall, hval⟩ := foldl_sel_last (sortByStart notes)
+      (NoteCovers R eps c total (numRows R c.fps total).toNat (selVel R R32 c) f p)
+      (noteVal R eps c total (numRows R c.fps total).toNat (selVel R R32 c)) 0 hex
+    refine ⟨l1, nt, l2, hl, by rw [← NoteCovers_vel_eq R R32]; exact hc, ?_, ?_⟩
+    · intro o ho; rw [← NoteCovers_vel_eq R R32]; exact hall o ho
+    · rw [hval, noteVal_vel R R32 eps c total _ f p nt hc]
+  · left
+    constructor
+    · intro nt hnt
+      rw [← NoteCovers_vel_eq R R32]
+      cases hc : NoteCovers R eps c total (numRows R c.fps total).toNat (selVel R R32 c) f p nt with
+      | false => rfl
+      | true => exact absurd ⟨nt, (mem_sortByStart nt notes).mpr hnt, hc⟩ hex
+    · rw [foldl_sel_const _ _ _ 0 0 (fun a ha hc => absurd ⟨a, ha, hc⟩ hex)]
+      simp
+
+/-- what the float32 store of a velocity must satisfy (true of IEEE rounding to 24 bits) -/
+structure Rounding32 (R32 : Rat → Rat) : Prop where
+  mono : ∀ x y : Rat, x ≤ y → R32 x ≤ R32 y
+  one : R32 1 = 1
+  pos : ∀ x : Rat, 0 < x → 0 < R32 x
+
+/-- **velocity scaled into (0, 1]** -/
+theorem velocity_scaled_range {R R32 : Rat → Rat} (hR : Rounding R) (h32 : Rounding32 R32) (v m : Int)
+    (hv : 0 < v) (hvm : v ≤ m) : 0 < R32 (R ((v : Rat) / (m : Rat))) ∧ R32 (R ((v : Rat) / (m : Rat))) ≤ 1 := by
+  have hm : (0 : Rat) < m := by exact_mod_cast (by omega : (0 : Int) < m)
+  have hv' : (0 : Rat) < v := by exact_mod_cast hv
+  have hq : 0 < (v : Rat) / (m : Rat) := by positivity
+  have hq1 : (v : Rat) / (m : Rat) ≤ 1 := by
+    rw [div_le_one hm]; exact_mod_cast hvm
+  have hu : u53 = 1 / 2 ^ 53 := rfl
+  have h1 : 0 < R ((v : Rat) / (m : Rat)) := by
+    have := hR.lo (le_of_lt hq)
+    have : 0 < (v : Rat) / (m : Rat) * (1 - u53) := by
+      have : (0 : Rat) < 1 - u53 := by rw [hu]; norm_num
+      positivity
+    linarith
+  have h2 : R ((v : Rat) / (m : Rat)) ≤ 1 := by
+    have := hR.mono _ _ hq1
+    have h1' : R (1 : Rat) = 1 := by simpa using hR.exact_int 1 (by norm_num) (by norm_num)
+    linarith
+  exact ⟨h32.pos _ h1, by have := h32.mono _ _ h2; rw [h32.one] at this; exact this⟩
+
+
+open Classical in
+/-- **frames_of_note** (exact arithmetic, `R = id`; occupancy 0, overlapping onsets, no blank frame):
+a cell of the active roll is 1 exactly when some in-range note of that pitch has
+`⌊x_s⌋ ≤ f < max(⌈x_e⌉, ⌊x_s⌋ + 1)`, where `x_s = snap(start·fps)`, `x_e = snap(end·fps)` and `snap`
+moves a position to the nearest integer only inside the documented window (`snap_close`, `snap_int`);
+every other cell is 0; out-of-range pitches contribute nothing. -/
+theorem frames_of_note (eps : Rat) (c : Cfg) (total : Rat) (notes : List PNote) (ccs : List PCC)
+    (pr : Pianoroll) (hfps : 0 ≤ c.fps) (hb : c.blank = false) (ho : c.overlap = true) (hocc : c.occ = 0)
+    (hm : c.mode = 0 ∨ c.mode = 1) (h : encode id id eps c total notes ccs = .ok pr)
+    (hstart : ∀ nt ∈ notes, 0 ≤ nt.start) (f p : Nat)
+    (hf : f < (numRows id c.fps total).toNat) (hp : p < (c.maxPitch - c.minPitch + 1).toNat) :
+    getCell pr.active f p = some
+      (if ∃ nt ∈ notes, InRange c nt ∧ p = colOf c nt ∧
+          (snap eps (nt.start * c.fps)).floor ≤ (f : Int) ∧
+          (f : Int) < max ((snap eps (nt.start * c.fps)).floor + 1) (snap eps (nt.end_ * c.fps)).ceil
+       then 1 else 0) := by
+  rw [enc_active_cell hb h f p hf hp]
+  congr 1
+  have key : ∀ nt ∈ notes,
+      (NoteCovers id eps c total (numRows id c.fps total).toNat (selActive c) f p nt = true ↔
+        InRange c nt ∧ p = colOf c nt ∧
+          (snap eps (nt.start * c.fps)).floor ≤ (f : Int) ∧
+          (f : Int) < max ((snap eps (nt.start * c.fps)).floor + 1) (snap eps (nt.end_ * c.fps)).ceil) := by
+    intro nt hnt
+    rw [NoteCovers_active_iff]
+    obtain ⟨nf, hnf, hsf, hef⟩ := noteFrames_overlap id eps c total (numRows id c.fps total).toNat nt hm ho
+    have hs0 : 0 ≤ snap eps (nt.start * c.fps) := snap_nonneg _ _ (mul_nonneg (hstart nt hnt) hfps)
+    have hfl := floor_nonneg_of_nonneg _ hs0
+    rw [hocc, framesFromTimes_occ0, timeToFrames_id, timeToFrames_id, truncR_of_nonneg _ hs0] at hsf hef
+    simp only at hsf hef
+    constructor
+    · rintro ⟨hr, hpc, nf', hnf', hs⟩
+      rw [hnf] at hnf'; cases hnf'
+      rw [hsf, hef, inSlice_iff _ _ _ f (by omega) (by omega) hf] at hs
+      exact ⟨hr, hpc, hs.1, hs.2⟩
+    · rintro ⟨hr, hpc, h1, h2⟩
+      refine ⟨hr, hpc, nf, hnf, ?_⟩
+      rw [hsf, hef, inSlice_iff _ _ _ f (by omega) (by omega) hf]
+      exact ⟨h1, h2⟩
+  by_cases hex : ∃ nt ∈ notes, NoteCovers id eps c total (numRows id c.fps total).toNat (selActive c) f p nt = true
+  · rw [if_pos hex, if_pos]
+    obtain ⟨nt, hnt, hc⟩ := hex
+    exact ⟨nt, hnt, (key nt hnt).mp hc⟩
+  · rw [if_neg hex, if_neg]
+    rintro ⟨nt, hnt, hc⟩
+    exact hex ⟨nt, hnt, (key nt hnt).mpr hc⟩
+
+
+/-- **roll length**: every roll has `int(total_time · fps + 1)` frames (`numRows`), which in exact
+arithmetic is `⌊total·fps⌋ + 1` -/
+theorem roll_length {R R32 : Rat → Rat} {eps : Rat} {c : Cfg} {total : Rat} {notes : List PNote}
+    {ccs : List PCC} {pr : Pianoroll} (h : encode R R32 eps c total notes ccs = .ok pr) :
+    pr.active.length = (numRows R c.fps total).toNat ∧ pr.onsets.length = (numRows R c.fps total).toNat ∧
+    pr.activeVelocities.length = (numRows R c.fps total).toNat := by
+  obtain ⟨_, _, st, hst, ha, ho, hv, _⟩ := encode_ok h
+  refine ⟨?_, ?_, ?_⟩
+  · rw [ha, encNotes_active_length _ _ _ hst]
+    simp [initRolls]
+  · rw [ho, encNotes_proj R R32 eps c total _ (·.onsets) (selOnset c)
+      (step_onsets R R32 eps c total _) _ _ st hst, length_foldl_paintOp]
+    simp [initRolls]
+  · rw [hv, encNotes_proj R R32 eps c total _ (·.vels) (selVel R R32 c)
+      (step_vels R R32 eps c total _) _ _ st hst, length_foldl_paintOp]
+    simp [initRolls]
+
+/-- **rejections (1)**: a roll is returned only if every in-range note has `velocity ≤ max_velocity`
+and the onset mode is known — i.e. a too-loud in-range note or an unknown mode (with an in-range
+note) always raises -/
+theorem encode_ok_valid {R R32 : Rat → Rat} {eps : Rat} {c : Cfg} {total : Rat} {notes : List PNote}
+    {ccs : List PCC} {pr : Pianoroll} (h : encode R R32 eps c total notes ccs = .ok pr) :
+    ∀ nt ∈ notes, InRange c nt → nt.velocity ≤ c.maxVelocity ∧ (c.mode = 0 ∨ c.mode = 1) := by
+  obtain ⟨_, _, st, hst, _⟩ := encode_ok h
+  intro nt hnt hr
+  obtain ⟨s, s', hs⟩ := encNotes_each_ok _ _ _ hst nt ((mem_sortByStart nt notes).mpr hnt)
+  rcases encNote_cases hs with ⟨ho, _⟩ | ⟨_, nf, hnf, hp⟩
+  · unfold InRange at hr; omega
+  · exact ⟨(paintNote_ok hp).2.2.2.2.1, noteFrames_ok_mode hnf⟩
+
+/-- **rejections (2)**: an unknown onset mode raises ValueError as soon as one note is in range -/
+theorem encode_unknown_mode (R R32 : Rat → Rat) (eps : Rat) (c : Cfg) (total : Rat) (notes : List PNote)
+    (ccs : List PCC) (h0 : c.mode ≠ 0) (h1 : c.mode ≠ 1) (hex : ∃ nt ∈ notes, InRange c nt) :
+    encode R R32 eps c total notes ccs = .error .valueError := by
+  unfold encode
+  simp only
+  split
+  · rfl
+  · rw [encNotes_bad_mode R R32 eps c total _ h0 h1 _ _ (by
+      obtain ⟨nt, hnt, hr⟩ := hex
+      exact ⟨nt, (mem_sortByStart nt notes).mpr hnt, hr⟩)]
+
+/-! ## pianoroll_to_note_sequence -/
+
+/-- **runs_decode**: without onset predictions the notes are exactly the maximal runs of active
+frames of each pitch (the run still open at the last frame is closed by the appended silent
+frame: `frameCol` reads `false` there), minus those that fail the `min_duration_ms` test; every
+note spans `[R (s·fls), R (e·fls))` with `fls = R (1/fps)` and carries the default velocity; the
+notes come out ordered by end frame then pitch (`emitLt`), so no run yields two notes. -/
+theorem runs_decode (R Rv : Rat → Rat) (d : DCfg) (frames : List (List Bool)) (w : Nat)
+    (hfps : d.fps ≠ 0) (hne : frames ≠ []) (hrect : isRect frames frames.length w = true)
+    (hw : w ≤ Gen.VEL_SLOTS) :
+    ∃ ems : List Emit,
+      decode R Rv d frames none none none =
+        .ok (ems.map (emitNote R (R (1 / d.fps)) d.minMidiPitch),
+             R (((frames.length + 1 : Nat) : Rat) * R (1 / d.fps))) ∧
+      ems.Pairwise emitLt ∧
+      ∀ e : Emit, e ∈ ems ↔
+        e.pitch < w ∧ e.vel = d.velocity ∧ keepR R (R (1 / d.fps)) d.minDurMs e.s e.e = true ∧
+          IsMaxRun (frameCol frames e.pitch) e.s e.e := by
+  rw [decode_plain_eq R Rv d frames w hfps hne hrect, prepare_plain]
+  simp only
+  set P := dparams R Rv d false false with hPdef
+  have hP : P.hasOn = false := rfl
+  set rows := prepareWith (getB (some (toMat frames))) (getB none) (getB none) (getV none) frames.length w with hrowsdef
+  set st : List Cell := List.replicate w (none, d.velocity) with hst
+  have hrows : ∀ row ∈ rows, row.length = st.length := by
+    intro row hrow
+    rw [hst, List.length_replicate]
+    exact prepareWith_row_length _ _ _ _ _ _ row hrow
+  obtain ⟨hmem, hoob⟩ := scan_column P rows 0 st hrows
+  have hstget : ∀ (p : Nat) (s : Cell), st[p]? = some s → p < w ∧ s = (none, d.velocity) := by
+    intro p s hs
+    rw [hst, List.getElem?_replicate] at hs
+    split at hs
+    · cases hs; exact ⟨by assumption, rfl⟩
+    · cases hs
+  have hflag : (scan P 0 st rows).2 = false := by
+    cases hf : (scan P 0 st rows).2 with
+    | false => rfl
+    | true =>
+      obtain ⟨p, s, hs, hc⟩ := hoob.mp hf
+      have := colScan_oob_noOnset P hP p _ 0 s hc
+      have := (hstget p s hs).1
+      omega
+  refine ⟨(scan P 0 st rows).1, ?_, (scan_sorted P rows 0 st).1, ?_⟩
+  · rw [hflag]; rfl
+  · intro e
+    rw [hmem e]
+    constructor
+    · rintro ⟨p, s, hs, he⟩
+      obtain ⟨hp, rfl⟩ := hstget p s hs
+      rw [hrowsdef, colOfRows_prepareWith _ _ _ _ _ _ _ hp] at he
+      have := (colScan_runs P hP p (frameCol frames p) d.velocity _ 0 none (by
+        intro k hk
+        simp only [List.getElem_map, List.getElem_range, Nat.zero_add]
+        rw [mkCell_active_plain]; rfl) (Or.inl rfl) e).mp he
+      obtain ⟨h1, h2, h3, h4, _, _⟩ := this
+      subst h1
+      exact ⟨hp, h2, h3, h4⟩
+    · rintro ⟨hp, h2, h3, h4⟩
+      refine ⟨e.pitch, (none, d.velocity), by rw [hst, List.getElem?_replicate, if_pos hp], ?_⟩
+      rw [hrowsdef, colOfRows_prepareWith _ _ _ _ _ _ _ hp]
+      refine (colScan_runs P hP e.pitch (frameCol frames e.pitch) d.velocity _ 0 none (by
+        intro k hk
+        simp only [List.getElem_map, List.getElem_range, Nat.zero_add]
+        rw [mkCell_active_plain]; rfl) (Or.inl rfl) e).mpr ⟨rfl, h2, h3, h4, Nat.zero_le _, ?_⟩
+      have := h4.end_le
+      simp only [List.length_map, List.length_range]
+      omega
+
+
+
+/-- **onset_decode**: with onset predictions (and optional offset predictions / velocity values) the
+notes returned are, pitch by pitch, exactly the `IsNote` spans of the column
+`active = (frame ∨ onset) ∧ ¬offset` (predicted offsets clear frames first): a note begins only at
+a frame with a predicted onset, a fresh onset (on after off) inside a run ends the note and begins
+a new one, an inactive frame ends it; minus the notes failing the `min_duration_ms` test; the
+velocity is `_unscale_velocity` of the value at the start frame (default velocity without values). -/
+theorem onset_decode (R Rv : Rat → Rat) (d : DCfg) (frames ons : List (List Bool))
+    (offs : Option (List (List Bool))) (vels : Option (List (List Rat)))
+    (notes : List ONote) (total : Rat)
+    (hdec : decode R Rv d frames (some ons) offs vels = .ok (notes, total)) :
+    ∃ (w : Nat) (ems : List Emit),
+      isRect frames frames.length w = true ∧
+      notes = ems.map (emitNote R (R (1 / d.fps)) d.minMidiPitch) ∧
+      total = R (((frames.length + 1 : Nat) : Rat) * R (1 / d.fps)) ∧
+      ems.Pairwise emitLt ∧
+      ∀ e : Emit, e ∈ ems ↔
+        e.pitch < w ∧
+        e.vel = velAt (dparams R Rv d true vels.isSome) (velCol vels e.pitch) d.velocity e.s ∧
+        keepR R (R (1 / d.fps)) d.minDurMs e.s e.e = true ∧
+        IsNote (actCol frames ons offs e.pitch) (onsCol ons e.pitch) e.s e.e := by
+  obtain ⟨hfps, row0, rest, hfr, hshape, hcore⟩ := decode_ok_inv hdec
+  set w := row0.length with hw
+  unfold shapesOk at hshape
+  simp only [Bool.and_eq_true] at hshape
+  obtain ⟨⟨⟨hrect, hrectOns⟩, _⟩, hrectV⟩ := hshape
+  unfold decodeCore at hcore
+  simp only [Option.isSome_some, Bool.true_and] at hcore
+  split at hcore
+  · cases hcore
+  · injection hcore with hcore
+    injection hcore with hnotes htotal
+    set P := dparams R Rv d true vels.isSome with hPdef
+    have hP : P.hasOn = true := rfl
+    set rows := prepare frames (some ons) offs vels w with hrowsdef
+    set st : List Cell := List.replicate w (none, d.velocity) with hst
+    have hprep : rows = prepareWith (getB (some (toMat frames))) (getB (some (toMat ons))) (getB (offs.map toMat))
+        (getV (vels.map toMat)) frames.length w := by
+      rw [hrowsdef]; unfold prepare; simp
+    have hrows : ∀ row ∈ rows, row.length = st.length := by
+      intro row hrow
+      rw [hst, List.length_replicate]
+      rw [hprep] at hrow
+      exact prepareWith_row_length _ _ _ _ _ _ row hrow
+    obtain ⟨hmem, _⟩ := scan_column P rows 0 st hrows
+    refine ⟨w, (scan P 0 st rows).1, hrect, hnotes.symm, htotal.symm, (scan_sorted P rows 0 st).1, ?_⟩
+    have hstget : ∀ (p : Nat) (s : Cell), st[p]? = some s → p < w ∧ s = (none, d.velocity) := by
+      intro p s hs
+      rw [hst, List.getElem?_replicate] at hs
+      split at hs
+      · cases hs; exact ⟨by assumption, rfl⟩
+      · cases hs
+    have hcolthm : ∀ p, p < w → ∀ e : Emit,
+        e ∈ (colScan P p 0 (none, d.velocity) (colOfRows rows p)).1 ↔
+          e.pitch = p ∧ e.vel = velAt P (velCol vels p) d.velocity e.s ∧ P.keep e.s e.e = true ∧
+            IsNote (actCol frames ons offs p) (onsCol ons p) e.s e.e ∧ 0 ≤ e.e ∧ e.e < 0 + (frames.length + 1) := by
+      intro p hp e
+      rw [hprep, colOfRows_prepareWith _ _ _ _ _ _ _ hp]
+      have := colScan_onsets P hP p (actCol frames ons offs p) (onsCol ons p) (velCol vels p) d.velocity
+        (by
+          intro hhv k _ hOk
+          have hk : k < ons.length := getB_true_lt' ons k p hOk
+          have hol : ons.length = frames.length := by
+            unfold isRect at hrectOns
+            simp only [Bool.and_eq_true, beq_iff_eq] at hrectOns
+            exact hrectOns.1
+          cases hvs : vels with
+          | none => rw [hPdef] at hhv; simp [dparams, hvs] at hhv
+          | some v =>
+            rw [hvs] at hrectV
+            obtain ⟨x, hx⟩ := getM_some_of_rect v frames.length w k p hrectV (by omega) hp
+            exact ⟨x, by simp only [velCol, getV, Option.map_some]; exact hx⟩)
+        ((List.range (frames.length + 1)).map fun i => mkCell (getB (some (toMat frames))) (getB (some (toMat ons)))
+          (getB (offs.map toMat)) (getV (vels.map toMat)) i p)
+        0 none d.velocity
+        (by
+          intro k hk
+          simp only [List.getElem_map, List.getElem_range, Nat.zero_add]
+          exact ⟨rfl, rfl, rfl, rfl⟩)
+        (fun _ => rfl)
+        (by unfold OnsInv; exact ⟨fun s hs => by omega, Or.inl rfl⟩) e
+      simpa only [List.length_map, List.length_range] using this
+    -- a note always ends at a frame of the extended roll
+    have hend : ∀ p s e, IsNote (actCol frames ons offs p) (onsCol ons p) s e → e < frames.length + 1 := by
+      intro p s e hn
+      -- frame e - 1 is active (it is s, or lies strictly inside), so it is a real frame
+      have hact : actCol frames ons offs p (e - 1) = true := by
+        rcases Nat.lt_or_ge s (e - 1) with h | h
+        · exact (hn.2.2.1 (e - 1) h (by have := hn.2.1; omega)).1
+        · have : s = e - 1 := by have := hn.2.1; omega
+          rw [← this]; exact hn.1.1
+      have hlt : e - 1 < frames.length := by
+        unfold actCol at hact
+        simp only [Bool.and_eq_true, Bool.or_eq_true] at hact
+        rcases hact.1 with h | h
+        · exact getB_true_lt' frames _ p h
+        · have := getB_true_lt' ons _ p h
+          have hol : ons.length = frames.length := by
+            unfold isRect at hrectOns
+            simp only [Bool.and_eq_true, beq_iff_eq] at hrectOns
+            exact hrectOns.1
+          omega
+      omega
+    intro e
+    rw [hmem e]
+    constructor
+    · rintro ⟨p, s, hs, he⟩
+      obtain ⟨hp, rfl⟩ := hstget p s hs
+      obtain ⟨h1, h2, h3, h4, _, _⟩ := (hcolthm p hp e).mp he
+      subst h1
+      exact ⟨hp, h2, h3, h4⟩
+    · rintro ⟨hp, h2, h3, h4⟩
+      refine ⟨e.pitch, (none, d.velocity), by rw [hst, List.getElem?_replicate, if_pos hp], ?_⟩
+      exact (hcolthm e.pitch hp e).mpr ⟨rfl, h2, h3, h4, Nat.zero_le _, by have := hend _ _ _ h4; omega⟩
+
+
+/-! ## the two conversions are mutually inverse on the grid -/
+
+/-- a decoded note as the encoder sees it -/
+def toPNote (o : ONote) : PNote := ⟨o.pitch, o.velocity, o.start, o.end_⟩
+
+/-- the encoder re-paints a decoded note in exactly the frames of its run -/
+theorem covers_of_emit (R : Rat → Rat) (eps : Rat) (d : DCfg) (c : Cfg) (total : Rat) (n w : Nat)
+    (N : Nat) (hgrid : ∀ k : Nat, k ≤ N → timeToFrames R eps d.fps (R ((k : Rat) * R (1 / d.fps))) = (k : Rat))
+    (hc1 : c.fps = d.fps) (hc2 : c.minPitch = d.minMidiPitch) (hc3 : c.maxPitch = d.minMidiPitch + (w : Int) - 1)
+    (hc4 : c.mode = 0) (hc5 : c.overlap = true) (hc7 : c.occ = 0)
+    (e : Emit) (hpw : e.pitch < w) (hse : e.s < e.e) (heN : e.e ≤ N) (f p : Nat) (hf : f < n) :
+    NoteCovers R eps c total n (selActive c) f p (toPNote (emitNote R (R (1 / d.fps)) d.minMidiPitch e)) = true ↔
+      p = e.pitch ∧ e.s ≤ f ∧ f < e.e := by
+  rw [NoteCovers_active_iff]
+  obtain ⟨nf, hnf, hsf, hef⟩ := noteFrames_plain R eps c total n
+    (toPNote (emitNote R (R (1 / d.fps)) d.minMidiPitch e)) hc4 hc5
+  have hfr : framesFromTimes R eps c.fps c.occ (toPNote (emitNote R (R (1 / d.fps)) d.minMidiPitch e)).start
+      (toPNote (emitNote R (R (1 / d.fps)) d.minMidiPitch e)).end_ = ((e.s : Int), (e.e : Int)) := by
+    rw [hc1, hc7]
+    exact framesFromTimes_grid R eps d.fps _ _ e.s e.e hse (hgrid e.s (by omega)) (hgrid e.e heN)
+  rw [hfr] at hsf hef
+  have hcol : colOf c (toPNote (emitNote R (R (1 / d.fps)) d.minMidiPitch e)) = e.pitch := by
+    simp only [colOf, toPNote, emitNote, hc2]; omega
+  have hin : InRange c (toPNote (emitNote R (R (1 / d.fps)) d.minMidiPitch e)) := by
+    simp only [InRange, toPNote, emitNote, hc2, hc3]; omega
+  rw [hcol]
+  constructor
+  · rintro ⟨_, hp, nf', hnf', hs⟩
+    rw [hnf] at hnf'; cases hnf'
+    rw [hsf, hef, inSlice_iff n _ _ f (by omega) (by omega) hf] at hs
+    exact ⟨hp, by omega, by omega⟩
+  · rintro ⟨hp, h1, h2⟩
+    refine ⟨hin, hp, nf, hnf, ?_⟩
+    rw [hsf, hef, inSlice_iff n _ _ f (by omega) (by omega) hf]
+    omega
+
+/-- **roll_roundtrip (decode then encode), any rounding**: if `time_to_frames` reads every grid
+time `R (k · R (1/fps))`, `k ≤ #frames`, back as `k` (hypothesis `hgrid`; discharged for every
+`Rounding R` in `roll_roundtrip_float` and for exact arithmetic in `roll_roundtrip`), then encoding
+the decoded notes reproduces the boolean roll cell by cell; frames past the roll are silent
+(`frameCol` reads `false` there). All roll sizes. -/
+theorem roll_roundtrip_of_grid (R R32 Rv : Rat → Rat) (eps : Rat) (d : DCfg) (c : Cfg)
+    (frames : List (List Bool)) (w : Nat) (ccs : List PCC)
+    (hfps : d.fps ≠ 0) (hne : frames ≠ []) (hrect : isRect frames frames.length w = true)
+    (hw : w ≤ Gen.VEL_SLOTS)
+    (hgrid : ∀ k : Nat, k ≤ frames.length →
+      timeToFrames R eps d.fps (R ((k : Rat) * R (1 / d.fps))) = (k : Rat))
+    (hkeep : ∀ s e : Nat, s < e → keepR R (R (1 / d.fps)) d.minDurMs s e = true)
+    (hc1 : c.fps = d.fps) (hc2 : c.minPitch = d.minMidiPitch)
+    (hc3 : c.maxPitch = d.minMidiPitch + (w : Int) - 1) (hc4 : c.mode = 0) (hc5 : c.overlap = true)
+    (hc6 : c.blank = false) (hc7 : c.occ = 0)
+    (notes : List ONote) (total : Rat) (hdec : decode R Rv d frames none none none = .ok (notes, total))
+    (pr : Pianoroll) (henc : encode R R32 eps c total (notes.map toPNote) ccs = .ok pr)
+    (f p : Nat) (hf : f < (numRows R c.fps total).toNat) (hp : p < w) :
+    getCell pr.active f p = some (if frameCol frames p f = true then 1 else 0) := by
+  obtain ⟨ems, hd, _, hmem⟩ := runs_decode R Rv d frames w hfps hne hrect hw
+  rw [hd] at hdec
+  injection hdec with hdec
+  injection hdec with hnotes htotal
+  have hcols : (c.maxPitch - c.minPitch + 1).toNat = w := by rw [hc2, hc3]; omega
+  rw [enc_active_cell hc6 henc f p hf (by omega)]
+  congr 1
+  have key : (∃ nt ∈ notes.map toPNote,
+      NoteCovers R eps c total (numRows R c.fps total).toNat (selActive c) f p nt = true) ↔
+      frameCol frames p f = true := by
+    constructor
+    · rintro ⟨nt, hnt, hcov⟩
+      rw [← hnotes] at hnt
+      simp only [List.mem_map] at hnt
+      obtain ⟨o, ⟨e, he, rfl⟩, rfl⟩ := hnt
+      obtain ⟨hpw, _, _, hrun⟩ := (hmem e).mp he
+      have hcv := (covers_of_emit R eps d c total _ w frames.length hgrid hc1 hc2 hc3 hc4 hc5 hc7 e hpw
+        hrun.1 hrun.end_le f p hf).mp hcov
+      obtain ⟨rfl, h1, h2⟩ := hcv
+      exact hrun.2.1 f h1 h2
+    · intro hA
+      obtain ⟨s, e, hrun, h1, h2⟩ := exists_maxRun (frameCol frames p) frames.length
+        (fun k hk => by
+          cases hg : frameCol frames p k with
+          | false => rfl
+          | true => have := getB_true_lt frames k p hg; omega) f hA
+      have hem : (⟨p, s, e, d.velocity⟩ : Emit) ∈ ems :=
+        (hmem ⟨p, s, e, d.velocity⟩).mpr ⟨hp, rfl, hkeep s e hrun.1, hrun⟩
+      refine ⟨toPNote (emitNote R (R (1 / d.fps)) d.minMidiPitch ⟨p, s, e, d.velocity⟩), ?_, ?_⟩
+      · rw [← hnotes]
+        simp only [List.mem_map]
+        exact ⟨_, ⟨_, hem, rfl⟩, rfl⟩
+      · exact (covers_of_emit R eps d c total _ w frames.length hgrid hc1 hc2 hc3 hc4 hc5 hc7
+          ⟨p, s, e, d.velocity⟩ hp hrun.1 hrun.end_le f p hf).mpr ⟨rfl, h1, h2⟩
+  by_cases hA : frameCol frames p f = true
+  · rw [if_pos hA, if_pos (key.mpr hA)]
+  · rw [if_neg hA, if_neg (fun h => hA (key.mp h))]
+
+
+/-! ### no drift under floating point -/
+
+/-- the tolerance found in the source (`Gen.SNAP_EPS`, regenerated on every run) is large enough -/
+theorem snap_eps_ok : (1 : Rat) / 2 ^ 30 ≤ Gen.SNAP_EPS := by
+  unfold Gen.SNAP_EPS; norm_num
+
+theorem keepR_of_nonpos {R : Rat → Rat} (hR : Rounding R) (fps minDur : Rat) (hf : 0 < fps)
+    (hmin : minDur ≤ 0) (s e : Nat) (hse : s < e) : keepR R (R (1 / fps)) minDur s e = true := by
+  unfold keepR
+  simp only [decide_eq_true_eq]
+  have hfls : 0 ≤ R (1 / fps) := hR.nonneg (by positivity)
+  have hle : (s : Rat) * R (1 / fps) ≤ (e : Rat) * R (1 / fps) := by
+    have : (s : Rat) ≤ (e : Rat) := by exact_mod_cast Nat.le_of_lt hse
+    exact mul_le_mul_of_nonneg_right this hfls
+  have h1 := hR.mono _ _ hle
+  have h2 : 0 ≤ R (R ((e : Rat) * R (1 / fps)) - R ((s : Rat) * R (1 / fps))) := hR.nonneg (by linarith)
+  have h3 : 0 ≤ R (R (R ((e : Rat) * R (1 / fps)) - R ((s : Rat) * R (1 / fps))) * 1000) :=
+    hR.nonneg (by positivity)
+  linarith
+
+/-- **roll_roundtrip_float**: for EVERY rounding operator `R` with the three IEEE properties
+(`Rounding`: monotone, exact on integers up to 2⁵³, relative error ≤ 2⁻⁵³), every positive frame rate
+(in particular all of {8, 16, 31.25, 32, 50, 62.5, 100}), every boolean roll with fewer than 2³¹
+frames and at most 128 pitches: decoding the roll and encoding the result with the snap tolerance
+found in the source gives back the roll cell by cell, in a roll of `#frames + 1` or `#frames + 2`
+frames whose extra frames are silent.  (`R32`, `Rv` arbitrary: they do not touch the active roll.) -/
+theorem roll_roundtrip_float {R : Rat → Rat} (hR : Rounding R) (R32 Rv : Rat → Rat) (d : DCfg) (c : Cfg)
+    (frames : List (List Bool)) (w : Nat) (ccs : List PCC)
+    (hfps : 0 < d.fps) (hne : frames ≠ []) (hrect : isRect frames frames.length w = true)
+    (hw : w ≤ Gen.VEL_SLOTS) (hlen : frames.length + 1 < 2 ^ 31) (hmin : d.minDurMs ≤ 0)
+    (hc1 : c.fps = d.fps) (hc2 : c.minPitch = d.minMidiPitch)
+    (hc3 : c.maxPitch = d.minMidiPitch + (w : Int) - 1) (hc4 : c.mode = 0) (hc5 : c.overlap = true)
+    (hc6 : c.blank = false) (hc7 : c.occ = 0)
+    (notes : List ONote) (total : Rat) (hdec : decode R Rv d frames none none none = .ok (notes, total))
+    (pr : Pianoroll) (henc : encode R R32 Gen.SNAP_EPS c total (notes.map toPNote) ccs = .ok pr) :
+    ((frames.length : Int) + 1 ≤ numRows R c.fps total ∧ numRows R c.fps total ≤ (frames.length : Int) + 2) ∧
+    ∀ f p : Nat, f < (numRows R c.fps total).toNat → p < w →
+      getCell pr.active f p = some (if frameCol frames p f = true then 1 else 0) := by
+  have hfps' : d.fps ≠ 0 := ne_of_gt hfps
+  constructor
+  · obtain ⟨ems, hd, _, _⟩ := runs_decode R Rv d frames w hfps' hne hrect hw
+    rw [hd] at hdec
+    injection hdec with hdec
+    injection hdec with _ htotal
+    rw [← htotal, hc1]
+    have := numRows_grid hR d.fps hfps (frames.length + 1) hlen
+    push_cast at this ⊢
+    omega
+  · intro f p hf hp
+    exact roll_roundtrip_of_grid R R32 Rv Gen.SNAP_EPS d c frames w ccs hfps' hne hrect hw
+      (fun k hk => timeToFrames_grid hR Gen.SNAP_EPS d.fps snap_eps_ok hfps k (by omega))
+      (fun s e hse => keepR_of_nonpos hR d.fps d.minDurMs hfps hmin s e hse)
+      hc1 hc2 hc3 hc4 hc5 hc6 hc7 notes total hdec pr henc f p hf hp
+
+/-- **roll_roundtrip (exact arithmetic)**: the same with no rounding at all (`R = id`) -/
+theorem roll_roundtrip (d : DCfg) (c : Cfg) (frames : List (List Bool)) (w : Nat) (ccs : List PCC)
+    (hfps : 0 < d.fps) (hne : frames ≠ []) (hrect : isRect frames frames.length w = true)
+    (hw : w ≤ Gen.VEL_SLOTS) (hlen : frames.length + 1 < 2 ^ 31) (hmin : d.minDurMs ≤ 0)
+    (hc1 : c.fps = d.fps) (hc2 : c.minPitch = d.minMidiPitch)
+    (hc3 : c.maxPitch = d.minMidiPitch + (w : Int) - 1) (hc4 : c.mode = 0) (hc5 : c.overlap = true)
+    (hc6 : c.blank = false) (hc7 : c.occ = 0)
+    (notes : List ONote) (total : Rat) (hdec : decode id id d frames none none none = .ok (notes, total))
+    (pr : Pianoroll) (henc : encode id id Gen.SNAP_EPS c total (notes.map toPNote) ccs = .ok pr) :
+    ∀ f p : Nat, f < (numRows id c.fps total).toNat → p < w →
+      getCell pr.active f p = some (if frameCol frames p f = true then 1 else 0) :=
+  (roll_roundtrip_float rounding_id id id d c frames w ccs hfps hne hrect hw hlen hmin hc1 hc2 hc3 hc4
+    hc5 hc6 hc7 notes total hdec pr henc).2
+
+
+
+
+/-- Python truthiness of the float32 cells (`if active:`) -/
+def toBoolRoll (m : List (List Rat)) : List (List Bool) := m.map (·.map (fun x => x != 0))
+
+theorem frameCol_toBoolRoll (m : List (List Rat)) (p k : Nat) :
+    frameCol (toBoolRoll m) p k = ((getCell m k p).map (fun x => x != 0)).getD false := by
+  unfold frameCol getB toBoolRoll getCell
+  simp only [getM_toMat, List.getElem?_map]
+  cases m[k]? with
+  | none => rfl
+  | some row =>
+    simp only [Option.map_some, Option.bind_some, List.getElem?_map]
+
+
+/-- **roll_roundtrip (encode then decode)**: notes on the frame grid — note `g` spans frames
+`[g.s, g.e)` of pitch index `g.pitch`, its times are the decoder's `R (k · R (1/fps))` — with at least
+one silent frame between notes of one pitch, encoded (plain configuration) and decoded again
+(`min_duration` letting everything through), come back as exactly the same (pitch, start, end)
+set; velocities become the decoder's default.  `hgrid` as in `roll_roundtrip_of_grid`. -/
+theorem roll_roundtrip_notes_of_grid (R R32 Rv : Rat → Rat) (eps : Rat) (d : DCfg) (c : Cfg)
+    (gl : List Emit) (total : Rat) (ccs : List PCC) (w : Nat)
+    (hfps : d.fps ≠ 0) (hw : w ≤ Gen.VEL_SLOTS)
+    (hc1 : c.fps = d.fps) (hc2 : c.minPitch = d.minMidiPitch)
+    (hc3 : c.maxPitch = d.minMidiPitch + (w : Int) - 1) (hc4 : c.mode = 0) (hc5 : c.overlap = true)
+    (hc6 : c.blank = false) (hc7 : c.occ = 0)
+    (hrows : 1 ≤ numRows R c.fps total)
+    (hgrid : ∀ k : Nat, (k : Int) ≤ numRows R c.fps total →
+      timeToFrames R eps d.fps (R ((k : Rat) * R (1 / d.fps))) = (k : Rat))
+    (hkeep : ∀ s e : Nat, s < e → keepR R (R (1 / d.fps)) d.minDurMs s e = true)
+    (hgl : ∀ g ∈ gl, g.pitch < w ∧ g.s < g.e ∧ (g.e : Int) ≤ numRows R c.fps total)
+    (hsep : ∀ a ∈ gl, ∀ b ∈ gl, a.pitch = b.pitch → (a.s = b.s ∧ a.e = b.e) ∨ a.e < b.s ∨ b.e < a.s)
+    (pr : Pianoroll)
+    (henc : encode R R32 eps c total
+      (gl.map fun g => toPNote (emitNote R (R (1 / d.fps)) d.minMidiPitch g)) ccs = .ok pr) :
+    ∃ ems : List Emit,
+      decode R Rv d (toBoolRoll pr.active) none none none =
+        .ok (ems.map (emitNote R (R (1 / d.fps)) d.minMidiPitch),
+             R ((((toBoolRoll pr.active).length + 1 : Nat) : Rat) * R (1 / d.fps))) ∧
+      ems.Pairwise emitLt ∧
+      ∀ e : Emit, e ∈ ems ↔
+        e.vel = d.velocity ∧ ∃ g ∈ gl, g.pitch = e.pitch ∧ g.s = e.s ∧ g.e = e.e := by
+  set n := (numRows R c.fps total).toNat with hn
+  have hcols : (c.maxPitch - c.minPitch + 1).toNat = w := by rw [hc2, hc3]; omega
+  obtain ⟨hlen, hrl⟩ := encode_active_rect hc6 henc
+  rw [hcols] at hrl
+  have hblen : (toBoolRoll pr.active).length = n := by simp [toBoolRoll, hlen, hn]
+  have hne : toBoolRoll pr.active ≠ [] := by
+    intro h; rw [h] at hblen; simp at hblen; omega
+  have hrect : isRect (toBoolRoll pr.active) (toBoolRoll pr.active).length w = true := by
+    unfold isRect
+    simp only [BEq.rfl, Bool.true_and, List.all_eq_true, beq_iff_eq]
+    intro row hrow
+    simp only [toBoolRoll, List.mem_map] at hrow
+    obtain ⟨r, hr, rfl⟩ := hrow
+    rw [List.length_map]; exact hrl r hr
+  obtain ⟨ems, hd, hsorted, hmem⟩ := runs_decode R Rv d (toBoolRoll pr.active) w hfps hne hrect hw
+  refine ⟨ems, hd, hsorted, ?_⟩
+  -- the encoded column of pitch index p
+  have hcol : ∀ p, p < w → ∀ k, frameCol (toBoolRoll pr.active) p k = true ↔
+      ∃ ij ∈ (gl.filter (fun g => g.pitch == p)).map (fun g => (g.s, g.e)), ij.1 ≤ k ∧ k < ij.2 := by
+    intro p hp k
+    rw [frameCol_toBoolRoll]
+    rcases Nat.lt_or_ge k n with hk | hk
+    · rw [enc_active_cell hc6 henc k p hk (by omega)]
+      have hcov : ∀ g ∈ gl, (NoteCovers R eps c total n (selActive c) k p
+            (toPNote (emitNote R (R (1 / d.fps)) d.minMidiPitch g)) = true ↔ p = g.pitch ∧ g.s ≤ k ∧ k < g.e) := by
+        intro g hg
+        obtain ⟨h1, h2, h3⟩ := hgl g hg
+        exact covers_of_emit R eps d c total n w n (fun k hk => hgrid k (by omega)) hc1 hc2 hc3 hc4 hc5 hc7
+          g h1 h2 (by omega) k p hk
+      constructor
+      · intro h
+        by_cases hex : ∃ nt ∈ gl.map (fun g => toPNote (emitNote R (R (1 / d.fps)) d.minMidiPitch g)),
+            NoteCovers R eps c total n (selActive c) k p nt = true
+        · obtain ⟨nt, hnt, hc⟩ := hex
+          simp only [List.mem_map] at hnt
+          obtain ⟨g, hg, rfl⟩ := hnt
+          obtain ⟨hp1, hp2, hp3⟩ := (hcov g hg).mp hc
+          refine ⟨(g.s, g.e), ?_, hp2, hp3⟩
+          simp only [List.mem_map, List.mem_filter, beq_iff_eq]
+          exact ⟨g, ⟨hg, hp1.symm⟩, rfl⟩
+        · rw [if_neg hex] at h; simp at h
+      · rintro ⟨ij, hij, h1, h2⟩
+        simp only [List.mem_map, List.mem_filter, beq_iff_eq] at hij
+        obtain ⟨g, ⟨hg, hgp⟩, rfl⟩ := hij
+        have : ∃ nt ∈ gl.map (fun g => toPNote (emitNote R (R (1 / d.fps)) d.minMidiPitch g)),
+            NoteCovers R eps c total n (selActive c) k p nt = true :=
+          ⟨_, List.mem_map.mpr ⟨g, hg, rfl⟩, (hcov g hg).mpr ⟨hgp.symm, h1, h2⟩⟩
+        rw [if_pos this]; simp
+    · have hnone : getCell pr.active k p = none := by
+        unfold getCell
+        rw [List.getElem?_eq_none (by omega)]; rfl
+      rw [hnone]
+      simp only [Option.map_none, Option.getD_none, Bool.false_eq_true, false_iff]
+      rintro ⟨ij, hij, h1, h2⟩
+      simp only [List.mem_map, List.mem_filter, beq_iff_eq] at hij
+      obtain ⟨g, ⟨hg, _⟩, rfl⟩ := hij
+      have := (hgl g hg).2.2
+      simp only at h2
+      omega
+  have hruns : ∀ p, p < w → ∀ s e, IsMaxRun (frameCol (toBoolRoll pr.active) p) s e ↔
+      ∃ g ∈ gl, g.pitch = p ∧ g.s = s ∧ g.e = e := by
+    intro p hp s e
+    rw [maxRun_of_separated _ ((gl.filter (fun g => g.pitch == p)).map (fun g => (g.s, g.e))) (hcol p hp)]
+    · simp only [List.mem_map, List.mem_filter, beq_iff_eq, Prod.mk.injEq]
+      constructor
+      · rintro ⟨g, ⟨hg, hgp⟩, h1, h2⟩; exact ⟨g, hg, hgp, h1, h2⟩
+      · rintro ⟨g, hg, hgp, h1, h2⟩; exact ⟨g, ⟨hg, hgp⟩, h1, h2⟩
+    · intro ij hij
+      simp only [List.mem_map, List.mem_filter, beq_iff_eq] at hij
+      obtain ⟨g, ⟨hg, _⟩, rfl⟩ := hij
+      exact (hgl g hg).2.1
+    · intro a ha b hb
+      simp only [List.mem_map, List.mem_filter, beq_iff_eq] at ha hb
+      obtain ⟨ga, ⟨hga, hpa⟩, rfl⟩ := ha
+      obtain ⟨gb, ⟨hgb, hpb⟩, rfl⟩ := hb
+      rcases hsep ga hga gb hgb (by rw [hpa, hpb]) with ⟨h1, h2⟩ | h | h
+      · left; rw [h1, h2]
+      · right; left; exact h
+      · right; right; exact h
+  intro e
+  rw [hmem e]
+  constructor
+  · rintro ⟨hp, hv, _, hrun⟩
+    exact ⟨hv, (hruns e.pitch hp e.s e.e).mp hrun⟩
+  · rintro ⟨hv, g, hg, h1, h2, h3⟩
+    obtain ⟨hgp, hgse, _⟩ := hgl g hg
+    have hp : e.pitch < w := by omega
+    exact ⟨hp, hv, hkeep e.s e.e (by omega), (hruns e.pitch hp e.s e.e).mpr ⟨g, hg, h1, h2, h3⟩⟩
+
+
+/-- **roll_roundtrip (encode then decode) under floating point**: for every `Rounding R`, every
+positive frame rate and every roll of fewer than 2³¹ frames -/
+theorem roll_roundtrip_notes_float {R : Rat → Rat} (hR : Rounding R) (R32 Rv : Rat → Rat) (d : DCfg) (c : Cfg)
+    (gl : List Emit) (total : Rat) (ccs : List PCC) (w : Nat)
+    (hfps : 0 < d.fps) (hw : w ≤ Gen.VEL_SLOTS) (hmin : d.minDurMs ≤ 0)
+    (hc1 : c.fps = d.fps) (hc2 : c.minPitch = d.minMidiPitch)
+    (hc3 : c.maxPitch = d.minMidiPitch + (w : Int) - 1) (hc4 : c.mode = 0) (hc5 : c.overlap = true)
+    (hc6 : c.blank = false) (hc7 : c.occ = 0)
+    (hrows : 1 ≤ numRows R c.fps total) (hrows' : numRows R c.fps total < 2 ^ 31)
+    (hgl : ∀ g ∈ gl, g.pitch < w ∧ g.s < g.e ∧ (g.e : Int) ≤ numRows R c.fps total)
+    (hsep : ∀ a ∈ gl, ∀ b ∈ gl, a.pitch = b.pitch → (a.s = b.s ∧ a.e = b.e) ∨ a.e < b.s ∨ b.e < a.s)
+    (pr : Pianoroll)
+    (henc : encode R R32 Gen.SNAP_EPS c total
+      (gl.map fun g => toPNote (emitNote R (R (1 / d.fps)) d.minMidiPitch g)) ccs = .ok pr) :
+    ∃ ems : List Emit,
+      decode R Rv d (toBoolRoll pr.active) none none none =
+        .ok (ems.map (emitNote R (R (1 / d.fps)) d.minMidiPitch),
+             R ((((toBoolRoll pr.active).length + 1 : Nat) : Rat) * R (1 / d.fps))) ∧
+      ems.Pairwise emitLt ∧
+      ∀ e : Emit, e ∈ ems ↔
+        e.vel = d.velocity ∧ ∃ g ∈ gl, g.pitch = e.pitch ∧ g.s = e.s ∧ g.e = e.e :=
+  roll_roundtrip_notes_of_grid R R32 Rv Gen.SNAP_EPS d c gl total ccs w (ne_of_gt hfps) hw hc1 hc2 hc3 hc4 hc5
+    hc6 hc7 hrows
+    (fun k hk => timeToFrames_grid hR Gen.SNAP_EPS d.fps snap_eps_ok hfps k (by omega))
+    (fun s e hse => keepR_of_nonpos hR d.fps d.minDurMs hfps hmin s e hse) hgl hsep pr henc
+
+/-! ## non-vacuity: concrete inputs satisfying the hypotheses (kernel-evaluated) -/
+section Examples
+def exD : DCfg := { fps := 100, minDurMs := 0, velocity := 70, minMidiPitch := 60, scale := 80, bias := 10 }
+/-- two pitches; a run open at the last frame; frames 7 and 29 are far beyond this toy size but the
+rate is the non-dyadic 100 fps -/
+def exFrames : List (List Bool) := [[true, false], [true, true], [false, true], [true, false]]
+def exC : Cfg where
+  fps := 100
+  minPitch := 60
+  maxPitch := 61
+  maxVelocity := 127
+  blank := false
+  upweight := 5
+  window := 1
+  onsetLenMs := 0
+  offsetLenMs := 0
+  mode := 0
+  delayMs := 0
+  occ := 0
+  overlap := true
+def exNotes : List PNote := [⟨60, 100, 1 / 40, 9 / 200⟩, ⟨61, 1, 0, 0⟩, ⟨72, 90, 0, 1⟩, ⟨60, 127, 1 / 25, 3 / 50⟩]
+def isOk {α} (r : Except Err α) : Bool := match r with | .ok _ => true | .error _ => false
+
+-- runs_decode / roll_roundtrip*: all hypotheses hold for `exD`, `exFrames`, `exC`, and the decoder
+-- returns three notes (one of them closed by the appended silent frame), the encoder a roll
+example : exD.fps ≠ 0 ∧ exFrames ≠ [] ∧ isRect exFrames exFrames.length 2 = true ∧ 2 ≤ Gen.VEL_SLOTS ∧
+    exFrames.length + 1 < 2 ^ 31 ∧ exD.minDurMs ≤ 0 ∧ exC.fps = exD.fps ∧ exC.minPitch = exD.minMidiPitch ∧
+    exC.maxPitch = exD.minMidiPitch + (2 : Nat) - 1 := by decide +kernel
+example : (match decode id id exD exFrames none none none with
+  | .ok (notes, total) =>
+      isOk (encode id id Gen.SNAP_EPS exC total (notes.map toPNote) []) && notes.length == 3
+  | .error _ => false) = true := by decide +kernel
+-- frames_of_note / enc_*_cell / roll_length: an off-grid sequence with an out-of-range pitch, a
+-- zero-length note and two overlapping notes of one pitch encodes to a roll
+example : isOk (encode id id Gen.SNAP_EPS exC 1 exNotes []) = true := by decide +kernel
+example : (match encode id id Gen.SNAP_EPS exC 1 exNotes [] with
+  | .ok pr => getCell pr.active 2 0 == some 1 && getCell pr.active 0 1 == some 1 &&
+      getCell pr.active 6 0 == some 0 && pr.active.length == 101
+  | .error _ => false) = true := by decide +kernel
+-- encode_unknown_mode / encode_ok_valid: the rejected inputs exist
+def errName {α} (r : Except Err α) : String := match r with | .ok _ => "ok" | .error e => e.name
+example : errName (encode id id Gen.SNAP_EPS { exC with mode := 7 } 1 exNotes []) = "ValueError" := by
+  decide +kernel
+example : errName (encode id id Gen.SNAP_EPS { exC with maxVelocity := 100 } 1 exNotes []) = "ValueError" := by
+  decide +kernel
+-- roll_roundtrip_notes_*: separated grid notes (frames [1,3) and [4,6) of pitch 0, [0,2) of pitch 1) at 100 fps
+def exGrid : List Emit := [⟨0, 1, 3, 90⟩, ⟨1, 0, 2, 64⟩, ⟨0, 4, 6, 127⟩]
+example : (match encode id id Gen.SNAP_EPS exC (7 / 100)
+      (exGrid.map fun g => toPNote (emitNote id (1 / 100) 60 g)) [] with
+  | .ok pr => (match decode id id exD (toBoolRoll pr.active) none none none with
+      | .ok (notes, _) => notes.length == 3 && numRows id exC.fps (7 / 100) == 8
+      | .error _ => false)
+  | .error _ => false) = true := by decide +kernel
+-- onset_decode: onsets at frames 0 and 2 of pitch 0 (the second one fresh: splits the run), an active
+-- frame without onset on pitch 1 (ignored), an offset clearing frame 3 of pitch 0, float velocities
+example : (match decode id id exD [[true, true], [true, false], [true, false], [true, false]]
+      (some [[true, false], [false, false], [true, false], [false, false]])
+      (some [[false, false], [false, false], [false, false], [true, false]])
+      (some [[1 / 2, 0], [0, 0], [1, 0], [0, 0]]) with
+  | .ok (notes, _) => notes == [⟨60, 50, 0, 1 / 50⟩, ⟨60, 90, 1 / 50, 3 / 100⟩]
+  | .error _ => false) = true := by decide +kernel
+-- Rounding is inhabited (exact arithmetic); Rounding32 likewise
+example : Rounding id := rounding_id
+example : Rounding32 id := ⟨fun _ _ h => h, rfl, fun _ h => h⟩
+end Examples
+
 end NSV.C18
